@@ -76,27 +76,38 @@ fn main() {
             let base = if thorough { 1500 } else { 150 };
             let b = props::Budget { scenarios: base * scale, thorough };
             let t0 = std::time::Instant::now();
-            match prop.as_str() {
-                "C01" => props::c01(&mut c, &b),
-                "C02" => props::c02(&mut c, &b),
-                "C03" => props2::c03(&mut c, &b),
-                "C04" => props::c04(&mut c, &b),
-                "C05" => props::c05(&mut c, &b),
-                "C06" => props::c06(&mut c, &b),
-                "C07" => props::c07(&mut c, &b),
-                "C08" => props2::c08(&mut c, &b),
-                "C09" => { props4::c09(&mut c, &b); props4::c09_glue(&mut c, &b); }
-                "C10" => props4::c10(&mut c, &b),
-                "C11" => props4::c11(&mut c, &b),
-                "C12" => props2::c12(&mut c, &b),
-                "C13" => props2::c13(&mut c, &b),
-                "C14" => props2::c14(&mut c, &b),
-                "C15" => props2::c15(&mut c, &b),
-                "C16" => props3::c16(&mut c, &b),
-                "C17" => { props4::c17(&mut c, &b); props4::c17_model(&mut c, &b); }
-                "C18" => { props4::c18(&mut c, &b); props4::c18_model(&mut c, &b); }
-                "C19" => { props4::c19(&mut c, &b); props4::c19_model(&mut c, &b); }
+            let run = std::panic::catch_unwind(std::panic::AssertUnwindSafe(|| { let c = &mut c; match prop.as_str() {
+                "C01" => props::c01(c, &b),
+                "C02" => props::c02(c, &b),
+                "C03" => props2::c03(c, &b),
+                "C04" => props::c04(c, &b),
+                "C05" => props::c05(c, &b),
+                "C06" => props::c06(c, &b),
+                "C07" => props::c07(c, &b),
+                "C08" => props2::c08(c, &b),
+                "C09" => { props4::c09(c, &b); props4::c09_glue(c, &b); }
+                "C10" => props4::c10(c, &b),
+                "C11" => props4::c11(c, &b),
+                "C12" => props2::c12(c, &b),
+                "C13" => props2::c13(c, &b),
+                "C14" => props2::c14(c, &b),
+                "C15" => props2::c15(c, &b),
+                "C16" => props3::c16(c, &b),
+                "C17" => { props4::c17(c, &b); props4::c17_model(c, &b); }
+                "C18" => { props4::c18(c, &b); props4::c18_model(c, &b); }
+                "C19" => { props4::c19(c, &b); props4::c19_model(c, &b); }
                 _ => { eprintln!("unknown property {}", prop); std::process::exit(2); }
+            } }));
+            if run.is_err() {
+                // a library call made by the harness's own observation code (shape, digest, encoding of a produced envelope) panicked:
+                // an operation of the public API crashed on an envelope the library itself produced
+                let site = interp::last_panic();
+                let scen = c.scenario.clone();
+                c.oracles.push(ctx::OracleRec { scenario: scen, name: "no-panic-while-observing".into(), pass: false, key: format!("panic@{}", site),
+                    detail: format!("a public operation applied by the harness to an envelope of this scenario panicked at {}", site) });
+                // the observation stream is cut here; pad it so that both sides stay aligned
+                let produced = c.lines.iter().filter(|l| { let t = l.trim(); !t.is_empty() && !t.starts_with('#') }).count();
+                while c.outs.len() < produced { c.outs.push("harness-cut".into()); }
             }
             std::fs::create_dir_all(&outdir).unwrap();
             std::fs::write(format!("{}/scen.evl", outdir), c.lines.join("\n") + "\n").unwrap();
